@@ -219,6 +219,7 @@ def step (ds : DS) (fs : List String) (impl : String) : DS × String × String :
         | "close", [] => some (let (a, r, e, d) := c.st.step fuel .close; (a, r, e, d, if c.st.sentLast then [] else [Wire.half]))
         | "recv", [] => some (let (a, r, e, d) := c.st.step fuel .recv; (a, r, e, d, []))
         | "hdr", [] => some (let (a, r, e, d) := c.st.step fuel .header; (a, r, e, d, []))
+        | "cancel", [] => some (let (a, r, e, d) := c.st.step fuel .cancel; (a, r, e, d, []))
         | _, _ => none
       match stepRes with
       | none => (ds, "bad-op", "-")
@@ -247,7 +248,7 @@ def step (ds : DS) (fs : List String) (impl : String) : DS × String × String :
         let mon2 := { mon1 with
           delivered := mon1.delivered || iword == "hdr" || iword.startsWith "msg",
           bufSize := mon1.bufSize + (match op, args with | "send", [n] => 5 + (n.toInt?.getD 0) | _, _ => 0),
-          ended := mon1.ended || ((op == "recv" || op == "hdr" || op == "send") && (iword == "err" || iword == "exhausted-eof" || iword == "nohdr" || (op == "recv" && iword == "eof"))) }
+          ended := mon1.ended || op == "cancel" || ((op == "recv" || op == "hdr" || op == "send") && (iword == "err" || iword == "exhausted-eof" || iword == "nohdr" || (op == "recv" && iword == "eof"))) }
         let mon3 := { mon2 with overLimit := mon2.overLimit || decide (mon2.bufSize > st'.maxBuf) }
         let verdict2 :=
           if verdict.startsWith "VIOL" then verdict
